@@ -107,8 +107,17 @@ impl PrefixedStringBuf {
 
 pub mod itoa {
     use vstd::prelude::*;
+    use super::{Tok, str_toks};
     pub trait Integer: Sized { spec fn ival(&self) -> int; }
     impl Integer for u64 { open spec fn ival(&self) -> int { *self as int } }
+    impl Integer for u128 { open spec fn ival(&self) -> int { *self as int } }
+    // itoa::Buffer::format: the decimal numeral of v
+    #[verifier::external_body] pub struct Buffer { p: u8 }
+    impl Buffer {
+        #[verifier::external_body] pub fn new() -> Buffer { unimplemented!() }
+        #[verifier::external_body]
+        pub fn format<I: Integer>(&mut self, v: I) -> (r: &str) ensures str_toks(r) == seq![Tok::Int(v.ival())] { unimplemented!() }
+    }
 }
 
 // =============================== assumed: floats ===============================================
